@@ -343,41 +343,32 @@ impl<F: Field> Circuit<F> {
                     //   1 = reader (already defined by another table)
                     //   2 = creator (private input or hint output, first use → this row creates it)
                     //
-                    // Guard: if the `out` slot is the creator for this op (!out_already_defined)
-                    // and a (or c) aliases `out` (same WitnessId), skip the a/c creator role to
-                    // avoid double-creation.  This happens in e.g. BoolCheck where a = c = out.
+                    // A slot is created once per row, in the order a, b, c, out: a position whose
+                    // slot an earlier position of the same row already creates is a plain reader
+                    // (`p * p`, `mul_add(p, x, p)`, BoolCheck on a hint bit where a = c = out).
+                    // In particular `out` does not take the creator role away from an operand:
+                    // the operand columns are what the row's relation is checked on, so they must
+                    // be on the bus.
+                    let is_input = |w: &WitnessId| {
+                        private_input_wids.contains(&w.0) || hint_output_wids.contains(&w.0)
+                    };
                     let a_defined = (a.0 as usize) < defined.len() && defined[a.0 as usize];
-                    let a_aliased_by_out = !out_already_defined && a.0 == out.0;
                     let a_state: F = if a_defined {
                         F::ONE // reader
-                    } else if (private_input_wids.contains(&a.0) || hint_output_wids.contains(&a.0))
-                        && !a_aliased_by_out
-                    {
+                    } else if is_input(a) {
                         F::TWO // creator (private input or hint output)
                     } else {
                         F::ZERO // skip
                     };
-
-                    // A slot is created once per row: when `a` already takes the creator role
-                    // for a private input / hint output, the same slot in the `b` or `c`
-                    // position of this row is a plain reader (e.g. `p * p`, `mul_add(p, x, p)`).
                     let a_creates = |w: &WitnessId| a_state == F::TWO && w.0 == a.0;
 
-                    // b and out creator flags (now independent).
-                    // Private inputs can be b-creators even in the forward case.
-                    let b_is_private_creator = !b_already_defined
-                        && (private_input_wids.contains(&b.0) || hint_output_wids.contains(&b.0));
-                    // A hint output in the `out` slot is a backward op: the hint value is given,
-                    // so `b` is the witness this row solves for and takes the bus creator role
-                    // (the hint output itself is still created via `out_is_creator`).
-                    // The same holds for a private input in the `out` slot (`p - x` is lowered to
-                    // `x + result = p` with the given `p` as `out`).
-                    let out_is_backward = out_already_defined
-                        || hint_output_wids.contains(&out.0)
-                        || private_input_wids.contains(&out.0);
-                    let out_is_creator = F::from_bool(!out_already_defined);
-                    let b_creates = (b_is_private_creator
-                        || out_is_backward && !b_already_defined)
+                    // Private inputs and hint outputs can be b-creators even in the forward case.
+                    let b_is_input_creator = !b_already_defined && is_input(b);
+                    // A hint output or private input in the `out` slot is a backward op: the value
+                    // is given, so `b` is the witness this row solves for and takes the bus
+                    // creator role (`p - x` is lowered to `x + result = p` with `p` as `out`).
+                    let out_is_backward = out_already_defined || is_input(out);
+                    let b_creates = (b_is_input_creator || out_is_backward && !b_already_defined)
                         && !a_creates(b);
                     let b_is_creator = F::from_bool(b_creates);
 
@@ -387,20 +378,25 @@ impl<F: Field> Circuit<F> {
                     // to ExprId::ZERO (b aliases witness 0).
                     let (c_wid, c_state) = c.as_ref().map_or((WitnessId(0), F::ZERO), |w| {
                         let c_defined = (w.0 as usize) < defined.len() && defined[w.0 as usize];
-                        let c_aliased_by_out = !out_already_defined && w.0 == out.0;
                         let created_in_row = a_creates(w) || (b_creates && w.0 == b.0);
                         let c_state = if c_defined || created_in_row {
                             F::ONE // reader
-                        } else if (private_input_wids.contains(&w.0)
-                            || hint_output_wids.contains(&w.0))
-                            && !c_aliased_by_out
-                        {
+                        } else if is_input(w) {
                             F::TWO // creator (private input or hint output)
                         } else {
                             F::ZERO // skip
                         };
                         (*w, c_state)
                     });
+                    let c_creates = c_state == F::TWO && c_wid.0 == out.0;
+
+                    // `out` creates its slot unless an operand of this row already does.
+                    let out_is_creator = F::from_bool(
+                        !out_already_defined
+                            && !a_creates(out)
+                            && !(b_creates && b.0 == out.0)
+                            && !c_creates,
+                    );
 
                     preprocessed.primitive[PrimitiveOpType::Alu as usize].extend([
                         sel_add_vs_mul,
